@@ -92,6 +92,9 @@ def r3(ctx):
     bt = ana.builder(tri)
     t = bt.return_term()
     size = Sym(tri.params[0])
+    if isinstance(t, Tup) and len(t.elems) == 2 and all(isinstance(e, Idx) and e.idx == (tm.const(k),) for k, e in enumerate(t.elems)) \
+            and t.elems[0].base == t.elems[1].base:
+        t = t.elems[0].base          # (x[0], x[1]) of the pair x that numpy.triu_indices returns
     ok = isinstance(t, App) and t.fn == "numpy.triu_indices" and t.args == (size,) and (not t.kw or t.kwarg("k") == tm.ZERO)
     ctx.check(ok, tri, "the table is numpy.triu_indices(size) unchanged (row-major upper triangle incl. diagonal)", role="table",
               expected=f"numpy.triu_indices({size})", found=str(t))
